@@ -197,6 +197,41 @@ theorem genAlter_same_cell (n : Nat) (opt : Opt) (H : Heap) (r : Ref) (t : T) (S
   obtain ⟨H1, r1, hc1, hl, _, _, _, had⟩ := alter_spec .genAlter rfl n opt H r t S hoe hd hS hnd hs hk
   exact ⟨H1, r1, hc1, had, hl⟩
 
+/-! ## the two directions by themselves, and the writers clause -/
+
+/-- `Generify(v)` is `v` written in the generic form -/
+theorem generify_value (n : Nat) (opt : Opt) (H : Heap) (r : Ref) (t : T) (ho : KeepsNulls opt)
+    (hd : denote n H r = some t) (hs : t.Simple) :
+    ∃ H' r', conv .generify n opt H r = some (H', r') ∧ denote n H' r' = some (t.toForm .gen) := by
+  obtain ⟨H1, r1, hc1, _, hd1, _⟩ := copy_spec .generify rfl n opt H r t ho.2 hd hs
+    (keeps_of_inv keepInv_generify t opt ho.1)
+  exact ⟨H1, r1, hc1, hd1⟩
+
+/-- `n.Simplify()` is `n` written in the simple form -/
+theorem simplify_value (n : Nat) (opt : Opt) (H : Heap) (r : Ref) (t : T) (hoe : opt.omitEmpty = false)
+    (hd : denote n H r = some t) (hs : t.pure .gen = true) :
+    ∃ H' r', conv .simplify n opt H r = some (H', r') ∧ denote n H' r' = some (t.toForm .simple) := by
+  obtain ⟨H1, r1, hc1, _, hd1, _⟩ := copy_spec .simplify rfl n opt H r t hoe hd hs
+    (keeps_of_inv keepInv_simplify t opt trivial)
+  exact ⟨H1, r1, hc1, hd1⟩
+
+/-- Writers clause for `oj` and `sen`: whatever the writer does with simple data (`w`), a generic tree
+and its simple equivalent are written identically — because the writers' only clause that matches a
+generic node writes its `Simplify()` result (`WriterPkg.viaSimplify`, read from the source). -/
+theorem writers_clause {α : Type} (p : WriterPkg) (w : T → α) (n : Nat) (Hg : Heap) (rg : Ref)
+    (Hs : Heap) (rs : Ref) (t : T) (hg : denote n Hg rg = some t) (hp : t.pure .gen = true)
+    (hs : denote n Hs rs = some (t.toForm .simple)) :
+    writeRoot p w n Hg rg = writeRoot p w n Hs rs ∧ writeRoot p w n Hs rs = some (w (t.toForm .simple)) := by
+  have hps : (t.toForm .simple).pure .simple = true := pure_toForm .simple .gen t hp
+  have hR : writeRoot p w n Hs rs = some (w (t.toForm .simple)) := by simp [writeRoot, hs, hps]
+  refine ⟨?_, hR⟩
+  rw [hR]
+  by_cases hsimp : t.pure .simple = true
+  · simp [writeRoot, hg, hsimp, toForm_of_pure .simple t hsimp]
+  · obtain ⟨H', r', hc, hd'⟩ := simplify_value n ⟨false, false⟩ Hg rg t rfl hg hp
+    have hv : p.viaSimplify = true := by cases p <;> rfl
+    simp [writeRoot, hg, hsimp, hv, hc, hd']
+
 /-! ## no shared mutable state (copying variants)
 
 These hold for EVERY option setting (whatever is left out of the copy): the hypotheses are only that
